@@ -5,7 +5,7 @@ LEVEL = "exploration"
 
 
 def run(chk, b, tier):
-    n = 240 if tier == "quick" else 6000
+    n = 240 if tier == "quick" else 15000
 
     def nt(f):
         keys = []
